@@ -145,6 +145,7 @@ def run(facts, tier):
     c04.r04_11(facts, res)
     c04.r04_12(facts, res)
     c04.r04_13(facts, res)
+    c04.r04_14(facts, res)
     from props import c01, c15
     c01.r01_3(facts, res)       # every item of the input reaches the information set (xe leaves the others unchanged)
     c15.r15_6(facts, res, "C17-10")
